@@ -24,6 +24,7 @@ type HarnessCfg struct {
 	MaxPaths int      `json:"max_paths"`
 	Covers   []string `json:"covers"`
 	Note     string   `json:"note"`
+	Optional bool     `json:"optional"`
 }
 
 type PropCfg struct {
@@ -117,6 +118,7 @@ func cmdCheck(args []string) int {
 	os.MkdirAll(replayDir, 0o755)
 
 	var runs []*HarnessRun
+	var skipped []string
 	inconclusive := []string{}
 	violations := 0
 	knownHits := map[string]int{}
@@ -132,6 +134,11 @@ func cmdCheck(args []string) int {
 			if d, err := time.ParseDuration(hc.Timeout); err == nil {
 				to = d
 			}
+		}
+		if _, fn := e.findHarness(hc.H); fn == nil && len(e.loadNotes) > 0 && hc.Optional {
+			fmt.Fprintf(os.Stderr, "[%s] %s skipped: %s\n", prop, hc.H, strings.Join(e.loadNotes, "; "))
+			skipped = append(skipped, hc.H)
+			continue
 		}
 		h := e.RunHarness(hc.H, hc.MaxPaths, to)
 		runs = append(runs, h)
@@ -206,6 +213,9 @@ func cmdCheck(args []string) int {
 		if f.Status == "known" {
 			fmt.Printf("KNOWN-FINDING: property=%s %s [%s] (witnessed on %d paths this run)\n", prop, f.What, f.ID, knownHits[f.ID])
 		}
+	}
+	if len(skipped) > 0 {
+		cfg.Assumptions = append(cfg.Assumptions, "harnesses skipped on this tree (their unexported-name file no longer type-checks): "+strings.Join(skipped, ", "))
 	}
 	writeEvidence(prop, tier, seed, cfg, runs, violations, replayed, reproduced, crossN, crossBad, inconclusive, time.Since(t0), e)
 	os.RemoveAll(workDir)
